@@ -16,6 +16,15 @@ CLAIMED = {
  "C04": ("H1", "deterministic simulation under a wake-driven executor: tasks are polled only when woken; seeded search over socket/handler/body readiness patterns; quiescence + probe poll for lost wake-ups; metamorphic reference run for byte order",
          "Seeded exploration with timers disabled: adversarial socket (1-byte/short reads, injected Pending/WouldBlock, partial writes, zero-capacity stalls with later grants, flush Pending), handlers and bodies that return Pending, request bodies consumed by a separate simulator task, response bodies fed from another task, peer half-close at any point. The connection task is polled only when its waker fired; at quiescence a probe poll that makes progress is a lost wake-up; output must equal the trivial-schedule reference run byte for byte (canonical form); after peer EOF and handler completion the connection future must complete. Sampling, not proof.",
          "Fairness: every injected stall is finite. Scenarios are restricted to the class whose output is schedule-independent by specification (handlers consume their bodies, nothing ends the connection early).", "§4 C04"),
+ "C05": ("H1", "deterministic simulation with black-box byte accounting after every simulator step (bytes taken from the socket minus bytes handed to the application; bytes pulled from bodies minus bytes accepted by the socket) under a window-respecting peer and stalled consumers",
+         "Seeded exploration of volume workloads against the real dispatcher: endless request head, multi-MB bodies against handlers that do not read / read one chunk per wake / read from another task, tens of thousands of tiny pipelined requests behind a stalled handler, multi-MB streaming responses against a socket that accepts a few bytes per grant, all h1_write_buffer_size values. The peer keeps a TCP-like window, so whatever the server does not read stays outside; read-ahead and write-ahead are measured after every step against bounds derived from the documented limits with a 2x margin. Sampling, not proof.",
+         "Bounds are the documented constants (128 KiB decoder buffer + one read + 32 KiB payload buffer; write buffer + one chunk) with margin; live-heap peak is reported as a diagnostic only (the harness's own buffers share the allocator).", "§4 C05"),
+ "C06": ("H1", "deterministic simulation on tokio's paused clock (discrete-event virtual time): seeded search over byte-arrival times relative to the three timers, timer configurations, shutdown-signal instants and pending shutdowns; timing-window oracles",
+         "Seeded exploration on virtual time: first heads completing before / inside / after the request-timeout window, second requests arriving before / inside / after the keep-alive window (whole or in two pieces, with handlers slower than the keep-alive period), shutdowns that the peer never completes under every way of entering shutdown (Connection: close, keep-alive expiry, linger after an early response), graceful-shutdown signals fired at every phase of in-flight and queued requests. Oracles use the 500 ms resolution of the server's cached clock as the legal firing window. Sampling, not proof.",
+         "The 500 ms resolution of DateService is treated as specified behaviour: a timer may fire up to 500 ms early; arrivals inside the window are judged on safety only.", "§4 C06"),
+ "C07": ("PC", "deterministic simulation of the real h1::Payload channel: seeded search over interleavings of single feeder/reader operations with counting wakers, checked operation by operation against a byte-queue reference model",
+         "Seeded exploration: sequences of up to 14 single operations (feed_data with sizes straddling 32 KiB, feed_eof, set_error, sender drop, need_read, reader poll, unread_data, reader drop) in every interleaving the generator draws, against a reference model (byte queue + eof/err/sender-gone). Exact bytes, truthful ending (error before clean end, never a clean end for a cut-short body), reader wake-up on every event after a Pending poll, feeder wake-up once drained below the limit. Sampling (≈3M sequences per quick run), not proof.",
+         "The reader stops polling once it has observed an end; when exactly Pause is reported is C05's subject.", "§4 C07"),
 }
 
 NOT_APPLICABLE = {
